@@ -22,6 +22,7 @@ def all_decls(decls):
 
 
 def rename_refs(pr, old, new):
+    # by NAME: callers generate their programs with globally unique definition names (reuse_names=0)
     def fix_path(p):
         return [new if x == old else x for x in p]
 
@@ -121,8 +122,12 @@ def observe_positions(proto, texts):
                         "option" if isinstance(m, Option) else None)
                 if kind is None:
                     continue
+                word = NAME_WORD[kind]
+                if kind == "alias" and 1 <= int(m.lineno) <= len(lines) and \
+                        lines[int(m.lineno) - 1].lstrip(" ").startswith("typedef "):
+                    word = 3        # the deprecated spelling: typedef <type> <Name>
                 evs.append({"ev": "Pos", "file": f, "path": path + [name], "line": int(m.lineno),
-                            "col": int(m.token_col_start), "word": NAME_WORD[kind],
+                            "col": int(m.token_col_start), "word": word,
                             "indent": int(getattr(m, "indent", -99))})
                 if isinstance(m, (Message, Enum)):
                     walk(m, path + [name])
@@ -196,10 +201,16 @@ def main(tier, replay=None):
     with common.Scratch("c20") as scratch:
         for k in range(n):
             rng = random.Random("c20/%d/%d" % (seed, k))
-            base, _ = gen.rand_case(seed, 160000 + k, max_bits=rng.choice([60, 300, 1000]), p_enum_nonzero_first=0.3)
+            base, _ = gen.rand_case(seed, 160000 + k, max_bits=rng.choice([60, 300, 1000]), p_enum_nonzero_first=0.3, reuse_names=0)
             if k % 3 == 1:
                 base = gen.wrap_diamond(base, rng)      # two sibling imports in one file, one file reached twice
             pr = perturb(base, rng)
+            if k % 4 == 2:
+                # the deprecated spelling of aliases (a syntax warning on stderr, same meaning, other word order)
+                for ds_ in pr["files"].values():
+                    for d_ in ds_:
+                        if d_["d"] == "alias" and rng.random() < 0.7:
+                            d_["typedef"] = True
             lay = render.Layout(indent=4, semi=(rng.random() < 0.2))
             if rng.random() < 0.1:
                 lay = render.Layout(indent=rng.choice([2, 3, 8]))
@@ -231,7 +242,7 @@ def main(tier, replay=None):
         rules = [r_ for r_ in inject.CATALOGUE if r_ != "extensible-in-traditional"]
         for k in range(nerrp):
             rng = random.Random("c20e/%d/%d" % (seed, k))
-            base, _ = gen.rand_case(seed, 165000 + k, max_bits=rng.choice([60, 300]), consts=True)
+            base, _ = gen.rand_case(seed, 165000 + k, max_bits=rng.choice([60, 300]), consts=True, reuse_names=0)
             if k % 2 == 1:
                 base = gen.wrap_diamond(base, rng)
             base = perturb(base, rng)
@@ -262,7 +273,9 @@ def main(tier, replay=None):
         res = comptrace.run_cli_many(clijobs)
         for i, (ti, o1, o2) in enumerate(climeta):
             (rc_c, _, se_c), (rc1, _, se1), (rc2, _, se2) = res[3 * i:3 * i + 3]
-            traces[ti]["obs"].append({"ev": "CheckOnly", "exit": rc_c, "nwarn": se_c.count("warning:"),
+            traces[ti]["obs"].append({"ev": "CheckOnly", "exit": rc_c,
+                                      # lint warnings only: the parser's "syntax warning: keyword typedef deprecated" is not one
+                                      "nwarn": se_c.count("warning:") - se_c.count("syntax warning:"),
                                       "nerr": se_c.count("error:"),
                                       "traceback": "Traceback (most recent call last)" in se_c})
             traces[ti]["obs"].append({"ev": "LintNoEffect", "exit_lint": rc1, "exit_quiet": rc2,
